@@ -571,6 +571,11 @@ func (g *gen) mutate() bool {
 		if g.r.Intn(40) == 0 {
 			n = 50 + g.r.Intn(250)
 		}
+		if g.r.Intn(90) == 0 {
+			// a batch far beyond any plausible internal chunk size (the header
+			// import writes tens of thousands of headers at once)
+			n = 2001 + g.r.Intn(2600)
+		}
 		var batch []int
 		prev := tipHash
 		for i := 0; i < n; i++ {
